@@ -29,11 +29,13 @@ type Case struct {
 	PerWriter  int    `json:"msgs_per_writer"`
 	OutSizes   []int  `json:"out_sizes"`
 	WriteFrom  string `json:"write_from"` // open, first-message
-	Ending     string `json:"ending"`     // client-close, client-cut, server-close, client-reset
+	Ending     string `json:"ending"`     // client-close, client-cut, server-close, client-reset, server-close-mid-handler
 	// CtlEvery > 0: the client sends a ping and an unsolicited pong behind every CtlEvery-th message; the
 	// server has user ping / pong handlers, which are callbacks of the connection like any other
 	CtlEvery  int `json:"ctl_every,omitempty"`
 	HandlerUs int `json:"handler_us,omitempty"` // time a message callback stays in the handler (default 50)
+	// AsyncRead: the engine reads in its IO executor instead of the poller goroutine (edge-triggered modes only)
+	AsyncRead bool `json:"async_read,omitempty"`
 	// YieldPerMille (instrumented build only): probability, in 1/1000, with which every lock / unlock
 	// statement of the library yields the processor or sleeps 1-50 us (schedule perturbation)
 	YieldPerMille int `json:"yield_per_mille,omitempty"`
@@ -166,6 +168,11 @@ func startServer(c Case) (*wsServer, error) {
 			hu = 50
 		}
 		time.Sleep(time.Duration(hu) * time.Microsecond)
+		if c.Ending == "server-close-mid-handler" && e.seq == len(c.InSizes) {
+			// the trigger message of this ending: the handler is still running while another goroutine of the
+			// application closes the connection
+			time.Sleep(60 * time.Millisecond)
+		}
 		if c.Ending == "client-reset" && e.seq == len(c.InSizes) {
 			// the trigger message of the "client-reset" ending: a long-running handler that keeps writing
 			// while the client resets the connection, so that the server's writes fail under its feet
@@ -216,6 +223,7 @@ func startServer(c Case) (*wsServer, error) {
 	})
 	conf := nbhttp.Config{Network: "tcp", NPoller: 2, MaxWebsocketFramePayloadSize: c.FrameLimit, Handler: handler}
 	vlib.ApplyHTTPMode(&conf, c.Mode)
+	conf.AsyncReadInPoller = c.AsyncRead && c.Mode != vlib.ModeLT
 	switch c.Path {
 	case "nb":
 		conf.Addrs = []string{"127.0.0.1:0"}
@@ -416,6 +424,26 @@ func runCase(c Case) vlib.Result {
 		if wc := s.conn.Load(); wc != nil {
 			_ = wc.Close()
 		}
+	case "server-close-mid-handler":
+		// one more message whose handler runs for >= 60 ms; once it has started, another goroutine of the
+		// application closes the connection
+		trig := len(c.InSizes)
+		if err := cl.WriteMessage(vlib.OpBin, inPayload(trig, 64)); err == nil {
+			sent++
+			vlib.WaitUntil(5*time.Second, func() bool {
+				s.log.mu.Lock()
+				defer s.log.mu.Unlock()
+				for _, e := range s.log.ev {
+					if e.k == "msg-start" && e.seq == trig {
+						return true
+					}
+				}
+				return false
+			})
+		}
+		if wc := s.conn.Load(); wc != nil {
+			_ = wc.Close()
+		}
 	case "client-reset":
 		// one more message whose handler runs for >= 60 ms and keeps writing; once it has started, the
 		// client resets the connection (RST), so the server-side writes fail while the handler runs
@@ -572,6 +600,8 @@ func cells() []Case {
 					OutSizes: []int{12, 999, 1000, 1001, 2500, 12000}, WriteFrom: "open", Ending: "client-close"})
 				out = append(out, Case{Path: p, AsyncWrite: aw, Mode: m, FrameLimit: 1000, OpenUs: 100, InSizes: []int{8, 100}, Writers: 1, PerWriter: 3,
 					OutSizes: []int{12, 2500}, WriteFrom: "open", Ending: "client-reset"})
+				out = append(out, Case{Path: p, AsyncWrite: aw, Mode: m, FrameLimit: 1000, OpenUs: 100, InSizes: []int{8, 100}, Writers: 0, PerWriter: 1,
+					OutSizes: []int{12}, WriteFrom: "open", Ending: "server-close-mid-handler", AsyncRead: aw})
 				out = append(out, Case{Path: p, AsyncWrite: aw, Mode: m, FrameLimit: 1000, OpenUs: 100, InSizes: []int{8, 100, 8, 5000, 8, 8}, Writers: 0, PerWriter: 1,
 					OutSizes: []int{12}, WriteFrom: "open", Ending: "client-close", CtlEvery: 1, HandlerUs: 3000})
 			}
@@ -615,7 +645,8 @@ func gen(t *rapid.T) Case {
 		c.OutSizes = append(c.OutSizes, rapid.SampledFrom([]int{12, c.FrameLimit - 1, c.FrameLimit, c.FrameLimit + 1, 2*c.FrameLimit + 1, 5 * c.FrameLimit, 70000}).Draw(t, "outsize"))
 	}
 	c.WriteFrom = rapid.SampledFrom([]string{"open", "first-message"}).Draw(t, "writefrom")
-	c.Ending = rapid.SampledFrom([]string{"client-close", "client-cut", "server-close", "client-reset"}).Draw(t, "ending")
+	c.Ending = rapid.SampledFrom([]string{"client-close", "client-cut", "server-close", "client-reset", "server-close-mid-handler"}).Draw(t, "ending")
+	c.AsyncRead = rapid.Bool().Draw(t, "asyncread")
 	if rapid.IntRange(0, 2).Draw(t, "ctl") == 0 {
 		c.CtlEvery = rapid.SampledFrom([]int{1, 2, 5}).Draw(t, "ctlevery")
 		if len(c.InSizes) <= 30 {
@@ -631,7 +662,7 @@ func gen(t *rapid.T) Case {
 func TestCheck(t *testing.T) {
 	r := vlib.NewRunner(t, "C14")
 	vlib.RunCases(r, "cells", cells(), runCase, true)
-	r.MarkExhaustive("matrix cells upgrade path x send mode x epoll mode (30 cells, three fixed workloads each: orderly close, client reset while a handler runs and writes, pings and pongs behind every message with slow handlers)")
+	r.MarkExhaustive("matrix cells upgrade path x send mode x epoll mode (30 cells, four fixed workloads each: application close from another goroutine while a handler runs (with asynchronous reading in half of the cells), orderly close, client reset while a handler runs and writes, pings and pongs behind every message with slow handlers)")
 	vlib.RunCheck(r, vlib.Check[Case]{Name: "sessions", N: r.Pick(900, 12000), Gen: gen, Run: runCase, Confirm: true, RecordCurrent: true})
 	r.Finish()
 }
